@@ -729,8 +729,8 @@ def check(ctx):
         stats["sided_flag_mismatches_on_exhaustive_space"] += r["sided_bad"]
         m = coq_res[i]
         stats["exhaustive_coq_evaluations"] += 4 * m["strings"]
-        # Spec = words substitution for equal flags; for one-sided flags the sided spec is known to fail (D34)
-        if r["bad_spec"] or m["spec_bad"][0] or m["spec_bad"][3]:
+        # Spec = sided words substitution for every flag setting (since fix D52 also for the one-sided flags)
+        if r["bad_spec"] or any(m["spec_bad"]) or r["sided_bad"]:
             bad_spec.append(i)
         if r["bad_impl"] or any(m["impl_bad"]):
             bad_impl.append(i)
@@ -744,8 +744,6 @@ def check(ctx):
                                                    "(fun p => rep_guard (fst p))", "(fun p => rep_plain (fst p))"], items, 400)
         for k in bI:
             bad_impl.append(idx[k])
-        for k in g:
-            gv.setdefault(idx[k], []).append("no_side_flags")
         noplain = set(pl)
         for k in bS:                         # terms containing delimiters are outside the statement (no Spec); Impl still compared
             if k not in noplain:
@@ -851,7 +849,7 @@ def check(ctx):
                                    "Python transcriptions of Replace.replace_words / Replace.loopA; the transcriptions are tied to the Coq model only through the "
                                    "smaller space, where model = real = transcription."),
                               impl_vs_model_mismatches=len(bad_impl), impl_vs_spec_mismatches=len(bad_spec),
-                              outside_guards={g: sum(1 for v in gv.values() if g in v) for g in ("no_side_flags", "variants_le2", "no_rename", "const_overrides", "no_parallel_tpl_edges")}),
+                              outside_guards={g: sum(1 for v in gv.values() if g in v) for g in ("variants_le2", "no_rename", "const_overrides", "no_parallel_tpl_edges")}),
                    trusted_base=["numpy float64 arithmetic is exact on the generated dyadic data (vector fields are compared as exact rationals)",
                                  "harness reading of template objects (walk), of the written YAML file (read_store, ruamel safe loader) and of variable "
                                  "definitions (PyRates' own _parse_defaults)",
